@@ -305,13 +305,13 @@ Proof.
   destruct (token_wf_parts _ Wm) as [Nm Tm].
   assert (Sm : ~ In SP (q_method q)) by (apply token_no_space; [exact Tm|reflexivity]).
   pose proof (not_rtsp_prefix (q_method q)
-    (q_url q ++ SP :: RTSP10 ++ CRLF ++ write_header (set_cl (q_hdr q) (q_body q)) ++ q_body q ++ rest) R Sm) as NP.
+    (url_str q ++ SP :: RTSP10 ++ CRLF ++ write_header (set_cl (q_hdr q) (q_body q)) ++ q_body q ++ rest) R Sm) as NP.
   assert (E : write_request q ++ rest =
-              q_method q ++ SP :: q_url q ++ SP :: RTSP10 ++ CRLF ++ write_header (set_cl (q_hdr q) (q_body q)) ++ q_body q ++ rest).
+              q_method q ++ SP :: url_str q ++ SP :: RTSP10 ++ CRLF ++ write_header (set_cl (q_hdr q) (q_body q)) ++ q_body q ++ rest).
   { unfold write_request. repeat (rewrite <- app_assoc || rewrite <- app_comm_cons). reflexivity. }
   rewrite E. apply receive_as_request.
   - rewrite zlen_app, zlen_cons, zlen_app, zlen_cons, zlen_app. change (zlen RTSP10) with 8.
-    pose proof (zlen_nonneg (q_method q)). pose proof (zlen_nonneg (q_url q)).
+    pose proof (zlen_nonneg (q_method q)). pose proof (zlen_nonneg (url_str q)).
     pose proof (zlen_nonneg (CRLF ++ write_header (set_cl (q_hdr q) (q_body q)) ++ q_body q ++ rest)). lia.
   - destruct (q_method q) as [|m0 m']; [rewrite zlen_nil in Nm; lia|]. exact D.
   - exact NP.
@@ -536,13 +536,13 @@ Lemma hdr_eqb_refl h : hdr_eqb h h = true.
 Proof. unfold hdr_eqb. apply list_eqb_refl, field_eqb_refl. Qed.
 Lemma event_eqb_refl w ev : event_eqb w ev ev = true.
 Proof.
-  destruct ev as [q|p|c d|]; cbn [event_eqb]; rewrite ?bytes_eqb_refl, ?hdr_eqb_refl, ?Z.eqb_refl, ?orb_true_r; reflexivity.
+  destruct ev as [q|p|c d|]; cbn [event_eqb]; rewrite ?bytes_eqb_refl, ?gourl_eqb_refl, ?hdr_eqb_refl, ?Z.eqb_refl, ?orb_true_r; reflexivity.
 Qed.
 
 Lemma parse_request_line_url url line :
   parse_request_line url line =
   match parse_request_line url_accept line with
-  | Ok (m, u, p) _ => match url u with Some u' => Ok (m, u', p) [] | None => Err EUrl end
+  | Ok (m, u, p) _ => match url (g_path u) with Some g => Ok (m, fix_url g, p) [] | None => Err EUrl end
   | Err e => Err e
   | Panic => Panic
   end.
@@ -606,7 +606,7 @@ Proof.
   destruct (parse_request_line url_accept line) as [[[m u] p] ?|e|] eqn:P.
   2:{ apply parse_request_line_accept_err in P. subst e. eauto. }
   2:{ exact I. }
-  unfold url_reject at 1. destruct (url u) as [u'|]; [|reflexivity].
+  unfold url_reject at 1. destruct (url (g_path u)) as [u'|]; [|reflexivity].
   destruct (read_header s1) as [h s2|e|] eqn:H.
   2:{ unfold read_header in H. pose proof (read_header_f_err _ _ _ _ H). destruct e; try congruence; eauto. }
   2:{ exact I. }
@@ -686,19 +686,19 @@ Proof.
   rewrite event_eqb_refl. cbn [andb]. apply IH.
 Qed.
 
-Theorem model_passes_items cfg items tail slack :
+Theorem model_passes_items url cfg items tail slack :
   0 <= slack ->
   let s := concat_items cfg items ++ tail in
-  let '(evs, fin) := model_obs url_accept 0 cfg s in
-  ok_items cfg items tail slack s evs fin (zlen s) = true.
+  let '(evs, fin) := model_obs url 0 cfg s in
+  ok_items url cfg items tail slack s evs fin (zlen s) = true.
 Proof.
-  intros SL s. pose proof (model_passes_raw url_accept 0 cfg s slack SL) as R.
-  unfold model_obs in *. destruct (read_stream (stepper url_accept 0 cfg) s) as [l fin] eqn:RS.
+  intros SL s. pose proof (model_passes_raw url 0 cfg s slack SL) as R.
+  unfold model_obs in *. destruct (read_stream (stepper url 0 cfg) s) as [l fin] eqn:RS.
   unfold ok_items. fold s. rewrite bytes_eqb_refl, R. cbn [andb].
-  destruct (forallb (item_wf url_accept cfg) items) eqn:W; [|reflexivity].
-  change (stepper url_accept 0 cfg) with (receive url_accept cfg) in RS.
-  unfold s in RS. rewrite (stream_reader_exact_tail url_accept cfg items tail W) in RS.
-  destruct (read_stream (receive url_accept cfg) tail) as [evs fin'] eqn:RT.
+  destruct (forallb (item_wf url cfg) items) eqn:W; [|reflexivity].
+  change (stepper url 0 cfg) with (receive url cfg) in RS.
+  unfold s in RS. rewrite (stream_reader_exact_tail url cfg items tail W) in RS.
+  destruct (read_stream (receive url cfg) tail) as [evs fin'] eqn:RT.
   inversion RS; subst. rewrite events_match_expected. cbn [andb].
   destruct tail; [|reflexivity]. cbv in RT. inversion RT; subst. reflexivity.
 Qed.
